@@ -104,6 +104,11 @@ func applyRootFaults(r *idp.Response, f pRoot) {
 		r.StatusCode = nil
 	case "fail":
 		r.StatusCode = idp.S("urn:oasis:names:tc:SAML:2.0:status:Responder")
+	case "nestfail":
+		r.StatusCode = idp.S("urn:oasis:names:tc:SAML:2.0:status:Responder")
+		r.SubStatus = idp.S(idp.StatusSuccess)
+	case "nestok":
+		r.SubStatus = idp.S("urn:oasis:names:tc:SAML:2.0:status:AuthnFailed")
 	}
 }
 
